@@ -10,9 +10,12 @@ for the Open Policy Agent, in both URL forms."""
 import json, os, concurrent.futures as cf
 from vlib.common import *
 
-PNEG = [("FailOpen", "OnlyEntitled"), ("IgnoreAllow", "OnlyEntitled"), ("HeaderFromAnyone", "StatusRight"), ("AskWithoutCredential", "AskedOnlyWithCredential"),
-        ("AliasOwnName", "OnlyEntitled"), ("ListHidden", "ListingExact"), ("Always403", "StatusRight"), ("AskForOpenEndpoints", "StatusRight"),
-        ("AnyScheme", "AskedOnlyWithCredential")]
+# a deviation usually breaks several invariants; which one TLC reports first depends on the search order
+PNEG = [("FailOpen", ("OnlyEntitled", "FailClosed", "StatusRight")), ("IgnoreAllow", ("OnlyEntitled", "StatusRight", "ListingExact")),
+        ("HeaderFromAnyone", ("StatusRight", "InputFaithful", "AskedOnlyWithCredential", "OnlyEntitled")),
+        ("AskWithoutCredential", ("AskedOnlyWithCredential", "StatusRight", "OnlyEntitled")),
+        ("AliasOwnName", ("OnlyEntitled", "EntitledServed", "StatusRight", "ListingExact")), ("ListHidden", ("ListingExact",)), ("Always403", ("StatusRight",)),
+        ("AskForOpenEndpoints", ("StatusRight", "AskedOnlyWithCredential")), ("LastOfChain", ("InputFaithful", "OnlyEntitled", "StatusRight")), ("RememberPrior", ("OnlyEntitled", "StatusRight", "ListingExact")), ("AnyScheme", ("AskedOnlyWithCredential", "InputFaithful", "StatusRight", "OnlyEntitled"))]
 NEG = ["NoRoleCheck", "AliasOwnRoles", "TwoHops", "HeaderFromAnyone", "PrefixTrust6", "ListHidden", "IgnoreEKU", "TouchFirst"]
 
 
@@ -46,7 +49,7 @@ def _replay(run, vh, behs, label):
 def _policy(run, vh, t, rnd):
     r = run_tlc("PolicyAuth_MC", "PolicyAuth_MC.cfg", timeout=900, want_beh=False)
     tlc_must_pass(r, "PolicyAuth_MC")
-    run.add_tlc(r, "PolicyAuth mc (14 endpoint/name forms x 5 Authorization headers x 3 routes x 2 TLS x 3 header certificates x 18 policy answers; liveness Terminates)")
+    run.add_tlc(r, "PolicyAuth mc (14 endpoint/name forms x 5 Authorization headers x 3 routes x 3 TLS chains x 4 header chains x 18 policy answers, plus a reused connection and a prior caller; liveness Terminates)")
     negs = PNEG if t == "thorough" else rnd.sample(PNEG, 4)
     for v, inv in negs:
         tlc_must_fail(run_tlc("PolicyAuth_MC", f"PolicyAuth_Neg_{v}.cfg", timeout=300, want_beh=False, workers=2), v, expect=inv)
@@ -54,7 +57,7 @@ def _policy(run, vh, t, rnd):
     g = run_tlc("PolicyAuth_Gen", "PolicyAuth_Gen.cfg", timeout=900)
     tlc_must_pass(g, "PolicyAuth_Gen")
     run.add_tlc(g, "PolicyAuth gen")
-    if len(g.beh) < 20000:
+    if len(g.beh) < 40000:
         raise NoVerdict(f"only {len(g.beh)} PolicyAuth behaviours")
     d = scratch("c04p")
     try:
@@ -62,20 +65,31 @@ def _policy(run, vh, t, rnd):
         with open(p, "w") as f:
             for b in g.beh:
                 f.write(json.dumps(b) + "\n")
-        o = parse_vh_json(run_vh(vh, ["replay-policy", p], env={"VERIF_TMP": d}, timeout=1800), "replay-policy")
+        shards = 8
+        with cf.ThreadPoolExecutor(shards) as ex:
+            futs = [ex.submit(run_vh, vh, ["replay-policy", p, str(i), str(shards)], None, 1800, {"VERIF_TMP": d}) for i in range(shards)]
+            outs = [parse_vh_json(f.result(), "replay-policy") for f in futs]
     finally:
         shutil.rmtree(d, ignore_errors=True)
-    if o["extra"].get("behaviours_read") != len(g.beh) and not o["failures"]:
-        raise NoVerdict(f"policy mode: replayed {o['extra']} of {len(g.beh)}")
-    kinds = {k: v for k, v in o["counters"].items() if k.startswith("pol_")}
-    if len(kinds) < 9 and not o["failures"]:
+    fails = [f for o in outs for f in o["failures"]]
+    got = sum(o["extra"].get("behaviours_read", 0) for o in outs)
+    if got != len(g.beh) and not fails:
+        raise NoVerdict(f"policy mode: replayed {got} of {len(g.beh)}")
+    kinds = {}
+    for o in outs:
+        for k, v in o["counters"].items():
+            if k.startswith("pol_"):
+                kinds[k] = kinds.get(k, 0) + v
+    if len(kinds) < 9 and not fails:
         raise NoVerdict(f"policy answers covered: {kinds}")
-    run.cov["evaluations"] += o["evaluations"]
-    run.cov["distinct_nontrivial"] += o["distinct_nontrivial"]
-    run.cov["traces_validated_against_impl"] += o["evaluations"]
+    for o in outs:
+        run.cov["evaluations"] += o["evaluations"]
+        run.cov["distinct_nontrivial"] += o["distinct_nontrivial"]
+        run.cov["traces_validated_against_impl"] += o["evaluations"]
     run.cov["policy_answers"] = kinds
-    for s in o["samples"][:1]:
-        run.sample(s)
+    for s_ in outs[0]["samples"][:1]:
+        run.sample(s_)
+    o = {"failures": fails}
     for f in o["failures"]:
         run.violation(f["key"], f["desc"], f["replay"])
     return len(g.beh)
@@ -111,7 +125,7 @@ def run(t):
                        "Ssl-Client-Cert identity incl. malformed) through the real Handler; expected outcome computed by the "
                        "specification; non-trivial = request succeeds or comes from the trusted proxy. Policy mode: all "
                        f"{npol} behaviours of PolicyAuth (6 endpoints x 5 key names x Authorization header {{absent, Bearer, bearer, Basic, empty}} x route {{direct, trusted proxy, "
-                       "stranger sending proxy headers}} x TLS certificate x header certificate incl. malformed x policy answer {allow with 2 role sets x 5 allowed_keys sets, four kinds "
+                       "stranger sending proxy headers}} x TLS certificate or two-certificate chain x header certificate or chain incl. malformed x {{fresh connection, the same request a second time on the connection}} x {{no prior request, a prior caller who was allowed everything}} x policy answer {allow with 2 role sets x 5 allowed_keys sets, four kinds "
                        "of deny carrying grants that must mean nothing, undefined decision, HTTP 500, connection reset, truncated JSON}) on a real server with the built-in client "
                        "table granting both certificates everything; compared: status, policy asked or not and the input it received (path, key, token, fingerprint, chain, request "
                        "shape for package and default-decision URLs), token calls, listing, audit record (subject, issuer, decision id, client address)")
